@@ -509,10 +509,41 @@ def rule_range_parser(ctx, F):
         problems.append("the text is not split on ','")
     else:
         base = P.strip(split_call[2][0])
-        if not (base[0] == "call" and base[1].rsplit("::", 1)[-1] == "replace" and P.strip(base[2][0]) == ("param", 1)
-                and P.strip(base[2][1]) in (("str", " "), ("char", 32)) and P.strip(base[2][2]) == ("str", "")):
+
+        def is_replace(b_):
+            return (b_[0] == "call" and b_[1].rsplit("::", 1)[-1] == "replace" and P.strip(b_[2][0]) == ("param", 1)
+                    and P.strip(b_[2][1]) in (("str", " "), ("char", 32)) and P.strip(b_[2][2]) == ("str", ""))
+
+        def is_despaced(b_):
+            """s.replace(' ', ""), or `if s.contains(' ') { Cow::Owned(s.replace(' ', "")) } else { Cow::Borrowed(s) }` (the text
+            itself only where it has no space to remove)"""
+            if is_replace(b_):
+                return True
+            alts_ = [P.strip(a_) for a_ in P.alts(b_)]
+            if len(alts_) != 2 or not all(a_[0] == "agg" and a_[1].startswith("adt:std::borrow::Cow::") and len(a_[2]) == 1 for a_ in alts_):
+                return False
+            owned = [a_ for a_ in alts_ if a_[1].endswith("::Owned")]
+            borrowed = [a_ for a_ in alts_ if a_[1].endswith("::Borrowed")]
+            if len(owned) != 1 or len(borrowed) != 1 or not is_replace(P.strip(owned[0][2][0])) or P.strip(borrowed[0][2][0]) != ("param", 1):
+                return False
+            no_space = []
+            for b2, lab2, truth2, term2 in I.bool_edges(fn, pr):
+                tt2, tr2 = term2, truth2
+                while tt2[0] == "un" and tt2[1] == "Not":
+                    tt2, tr2 = tt2[2], not tr2
+                if tt2[0] == "call" and tt2[1].rsplit("::", 1)[-1] == "contains" and len(tt2[2]) == 2 and P.strip(tt2[2][0]) == ("param", 1) \
+                        and P.strip(tt2[2][1]) in (("str", " "), ("char", 32)) and not tr2:
+                    no_space.append((b2, lab2))
+            for bi2 in sorted(fn.cfg.reachable):
+                for st2 in fn.blocks[bi2]["stmts"]:
+                    if st2["k"] == "assign" and "agg" in st2["rv"] and isinstance(st2["rv"]["agg"], dict) and \
+                            st2["rv"]["agg"].get("adt") == "std::borrow::Cow" and st2["rv"]["agg"].get("variant") == "Borrowed":
+                        if not no_space or not I.guarded_by(fn, bi2, no_space):
+                            return False
+            return True
+        if not is_despaced(base):
             problems.append(f"the split text is not `s.replace(\" \", \"\")`: {P.show(base)[:80]}")
-    parse_calls = [bi for bi, t_ in fn.calls() if I.callee_path(t_) == f"<{TOKEN} as std::str::FromStr>::from_str" and bi in outer.body]
+    parse_calls = [bi for bi, t_ in fn.calls() if bi in outer.body and _is_token_parse(fn, pr.call_term(t_, bi))]
     if pipeline or lazy_tokens:
         # split(',').filter_map(|piece| Token::from_str(piece).ok()).flatten(): every piece is parsed, the failing ones
         # are dropped, each token is expanded in place (flatten = its IntoIterator), in order
@@ -553,6 +584,8 @@ def rule_range_parser(ctx, F):
         else:
             isrc, ich = inner[0].chain()
             s_ = P.strip(isrc)
+            if s_[0] == "field" and s_[1][0] == "variant" and s_[1][2] == "Some":
+                s_ = P.strip(P.narrow_deep(s_))        # `.ok()` / `?`-style wrappers around the parsed token
             okp = s_[0] == "field" and s_[1][0] == "variant" and s_[1][2] == "Ok" and _is_token_parse(fn, P.strip(s_[1][1])) and \
                 P.strip(P.strip(s_[1][1])[2][0]) == P.strip(outer.item_term)
             if lazy_tokens:
